@@ -68,14 +68,14 @@ EvsOK(exp, got) ==
 (* C08: for update events the recorded description applied to the previous version gives the new version *)
 PrevOf(pre, ns, key) ==
   IF ns \notin DOMAIN pre THEN Missing
-  ELSE LET hit == {i \in 1..Len(pre[ns].docs) : Id(pre[ns].docs[i]) = key} IN
+  ELSE LET hit == {i \in 1..Len(pre[ns].docs) : Cmp(Id(pre[ns].docs[i]), key) = 0} IN    \* a document key identifies by BSON comparison, as _id uniqueness does
        IF hit = {} THEN Missing ELSE pre[ns].docs[CHOOSE i \in hit : TRUE]
 DescriptionsOK(pre, evs) ==
   \A i \in 1..Len(evs) :
      evs[i].op = "update" =>
         /\ evs[i].hasdesc
         /\ \* the previous version: the document in the pre-state, or as changed by an earlier event of the same call
-           LET earlier == {j \in 1..(i - 1) : evs[j].ns = evs[i].ns /\ evs[j].key = evs[i].key /\ evs[j].full # Missing}
+           LET earlier == {j \in 1..(i - 1) : evs[j].ns = evs[i].ns /\ Cmp(evs[j].key, evs[i].key) = 0 /\ evs[j].full # Missing}
                prev == IF earlier = {} THEN PrevOf(pre, evs[i].ns, evs[i].key)
                        ELSE evs[CHOOSE j \in earlier : \A k \in earlier : k <= j].full
            IN prev # Missing /\ SameUpToOrder(ApplyDescription(prev, evs[i].upd, evs[i].rem), evs[i].full)
